@@ -26,6 +26,7 @@ type FullCfg struct {
 	BufSize      int
 	WriteTimeout time.Duration
 	CloseTimeout time.Duration
+	LogonTimeout time.Duration // LogonSettings.LogonTimeout (default 30 s)
 	Counter      session.CounterStorage
 	Messages     session.MessageStorage
 	Notify       bool   // observers may wait on writes (off under -race)
@@ -119,7 +120,7 @@ func StartFull(cfg FullCfg) (*Full, error) {
 			f.hookHandler(l)
 			cs, ms := f.stores()
 			s, err := session.NewAcceptorSession(Opts(), dh, &session.LogonSettings{
-				LogonTimeout: 30 * time.Second, HeartBtLimits: cfg.Limits, CloseTimeout: cfg.CloseTimeout,
+				LogonTimeout: logonTimeout(cfg), HeartBtLimits: cfg.Limits, CloseTimeout: cfg.CloseTimeout,
 			}, func(ls *session.LogonSettings) error { return cfg.OnLogon(ls) }, cs, ms)
 			if err != nil {
 				l.RunErr = err
@@ -157,7 +158,7 @@ func StartFull(cfg FullCfg) (*Full, error) {
 	cs, ms := f.stores()
 	s, err := session.NewInitiatorSession(h, Opts(), &session.LogonSettings{
 		TargetCompID: PeerID, SenderCompID: LibID, HeartBtInt: hb, EncryptMethod: "0",
-		Username: "user", Password: "pw", CloseTimeout: cfg.CloseTimeout, LogonTimeout: 30 * time.Second,
+		Username: "user", Password: "pw", CloseTimeout: cfg.CloseTimeout, LogonTimeout: logonTimeout(cfg),
 	}, cs, ms)
 	if err != nil {
 		return nil, err
@@ -369,4 +370,11 @@ func (f *Full) Served() bool {
 	default:
 		return false
 	}
+}
+
+func logonTimeout(cfg FullCfg) time.Duration {
+	if cfg.LogonTimeout != 0 {
+		return cfg.LogonTimeout
+	}
+	return 30 * time.Second
 }
